@@ -96,7 +96,13 @@ FullPool == <<
   Call(T1, <<>>, 33, STuple(<<SCoal(<<SNest(Call(L5, <<>>, 31, SProbe("boomA")))>>, Default(VInt(0))), SProbe("boomB")>>)),
   \* 34, 35: ONE spec object binding Vars(<plain dict>), writing into it, a yield, then the read
   Call(L12, <<>>, 34, SLastY(0)),
-  Call(VList(<<>>), <<>>, 34, SLastY(0))
+  Call(VList(<<>>), <<>>, 34, SLastY(0)),
+  \* 36, 37: a one-shot iterator consumed item by item across yield points; falsy intermediate values and
+  \* objects with a hostile __eq__ observed at yield points
+  Call(VGen(<<VInt(1), VInt(0)>>), <<>>, 36, SAcc("group", "inc")),
+  Call(VDict(<< <<VStr("a"), VInt(0)>>, <<VStr("b"), VList(<<VHostile(1), VBool(FALSE)>>)>> >>), <<>>, 37,
+       SDict(<< <<"p", SCoal(<<STuple(<<Pa, SProbe("id")>>)>>, Default(VInt(9)))>>,
+                <<"q", STuple(<<P("b", <<"b">>), SEach("list", SProbe("id"))>>)>> >>))
 >>
 C20Pool == SubSeq(FullPool, PoolFrom, PoolFrom + PoolSize - 1)
 
